@@ -87,7 +87,10 @@ def map_actuals_to_formals(
             actualt = get_proper_type(actual_arg_type(ai))
             if isinstance(actualt, TypedDictType):
                 for name in actualt.items:
-                    if name in formal_names:
+                    if (
+                        name in formal_names
+                        and formal_kinds[formal_names.index(name)] != nodes.ARG_STAR
+                    ):
                         formal_to_actual[formal_names.index(name)].append(ai)
                     elif nodes.ARG_STAR2 in formal_kinds:
                         formal_to_actual[formal_kinds.index(nodes.ARG_STAR2)].append(ai)
